@@ -318,6 +318,42 @@ class HostileInjector(Oracle):
         ep.pump()
         return True
 
+    def late_retry(self, ep, dgram):
+        """An observer of the connection forges a Retry packet with a valid integrity tag (it only needs the
+        connection IDs it sees on the wire) and sends it to a client that has long processed packets of the
+        server: RFC 9000 17.2.5.2 - such a client MUST discard it."""
+        from wire import header as wh
+
+        if not ep.is_client or not ep.handshake_complete or ep.conn is None:
+            return False
+        ch = self.ch
+        try:
+            pkt = wh.build_retry(self.forger.version(ep.peer), self.forger.current_dcid(ep.peer), _bytes(ch, 8),
+                                 b"late-retry-token" + _bytes(ch, ch.choose(40)), self.forger.current_dcid(ep))
+        except Exception:
+            return False
+        self.count("late-retry")
+        self.sim.k.trace("hostile", ep.name, "late-retry", len(pkt))
+        self.late_retry_sent = self.sim.k.now
+        d = self.forger.inject(ep, pkt, src=dgram.src, tag="hostile")
+        try:
+            ep.api("receive_datagram", d.data, d.src, ep.now())
+            ep.pump()
+        except EndpointBroken:
+            pass
+        return True
+
+    def on_datagram_sent(self, ep, dgram):
+        if ep.is_client and getattr(self, "late_retry_sent", None) is not None and any(
+                (not p.opaque) and p.ptype == "initial" for p in (dgram.meta or [])):
+            from .kernel import Violation
+
+            raise Violation("c05.late-retry", "client-restarted-after-forged-retry",
+                            "a Retry packet forged at t=%.4f, long after the client had processed packets of the server, "
+                            "was acted upon: the client sends Initial packets again at t=%.4f (%s) instead of "
+                            "discarding it" % (self.late_retry_sent, self.sim.k.now,
+                                               [p.summary() for p in dgram.meta]))
+
     def cid_dance(self, ep, dgram):
         """A key-holding peer issues connection IDs out of order, the local application rotates through them
         (change_connection_id() is public API), then the peer repeats one of its frames with a Retire Prior To
@@ -367,6 +403,14 @@ class HostileInjector(Oracle):
         if self.sim.k.now >= self.sim.cfg["t_fair"] or not self.ch.chance(self.rate):
             self.last_genuine = dgram.data
             return
+        if self.sim.profile.get("late_retry_p") and self.ch.chance(self.sim.profile["late_retry_p"]):
+            self.busy = True
+            try:
+                if self.late_retry(ep, dgram):
+                    return
+            finally:
+                self.busy = False
+                self.last_genuine = dgram.data
         if self.sim.profile.get("cid_dance_p") and self.ch.chance(self.sim.profile["cid_dance_p"]):
             self.busy = True
             try:
